@@ -365,7 +365,7 @@ def gen_bindings(rng, nv, s, count):
 def gen_prog(rng):
     nv = rng.choice([2, 3, 4, 5])
     names = ['V%d' % i for i in range(nv)]
-    kind = rng.choice(['assert_time', 'assert_time', 'assert_time', 'backtrack', 'two_uses', 'self_use'])
+    kind = rng.choice(['assert_time', 'assert_time', 'assert_time', 'backtrack', 'two_uses', 'self_use', 'seq_findall', 'seq_twice'])
     ar = rng.choice([1, 1, 2])
     T = [small_term(rng, nv, rng.choice([0, 1, 2, 2]), pvar=0.6, lists=False) for _ in range(ar)]
     s = {}
@@ -415,6 +415,31 @@ def gen_prog(rng):
         c['expect_db'] = {'p': [canon(stored)]}
         c['nonground_twice'] = bool(vs)
         c['bound_inside'] = any(v in s for t in T for v in terms.term_vars(t))
+    elif kind in ('seq_findall', 'seq_twice'):
+        # one use of the fact AFTER the other; the answers of the use that ended are still held (findall keeps them in its
+        # list), then the later use is instantiated: the held answers must stay as they were
+        vs = sorted({v for t in stored for v in terms.term_vars(t)})
+        ia = [subst(t, {v: ['a', 'a'] for v in vs}) for t in stored]
+        ib = [subst(t, {v: ['a', 'b'] for v in vs}) for t in stored]
+        xs = ['X%d' % i for i in range(ar)]
+        ys = ['Y%d' % i for i in range(ar)]
+        row = lambda ts: 'r(%s)' % ','.join(ts)
+        fa = lambda bag: 'findall(%s, p(%s), %s)' % (row(xs), ','.join(xs), bag)
+        plrow = lambda ts: row([pl_term(t, names) for t in ts])
+        body = [eq(b) for b in pre] + ['%s(%s)' % (az, head_p)]
+        if kind == 'seq_findall':
+            body += [fa('L'), 'p(%s)' % ','.join(ys)] + ['%s = %s' % (y, pl_term(t, names)) for y, t in zip(ys, ia)]
+            c['source'] = 't(%s) :- %s.\n' % (','.join(['L'] + ys), ', '.join(body + [eq(b) for b in post]))
+            c['query'] = ['t', 1 + ar]
+            c['expect_answers'] = [canon([terms.mklist([['f', 'r', stored]])] + ia)]
+        else:
+            body += [fa('L1'), fa('L2'), 'L1 = [%s]' % plrow(ia), 'L2 = [%s]' % plrow(ib)]
+            c['source'] = 't(L1,L2) :- %s.\n' % ', '.join(body + [eq(b) for b in post])
+            c['query'] = ['t', 2]
+            c['expect_answers'] = [canon([terms.mklist([['f', 'r', ia]]), terms.mklist([['f', 'r', ib]])])]
+        c['expect_db'] = {'p': [canon(stored)]}
+        c['nonground_twice'] = bool(vs)
+        c['bound_inside'] = any(v in s for t in T for v in terms.term_vars(t))
     else:
         # t(V0..Vn) :- assertz(p(T)), p(T with its variables replaced by a).   The use must not bind the clause's variables
         vs = sorted({v for t in T for v in terms.term_vars(t)})
@@ -454,7 +479,7 @@ def prog_oracle(case, io):
     if io['end'] != 'done':
         return io['end']
     if 'expect_answers' in case and io['answers'] != case['expect_answers']:
-        return 'answers %r, expected %r (a use of the fact bound variables of the asserting clause)' % (io['answers'], case['expect_answers'])
+        return 'answers %r, expected %r (a use of the fact constrained the asserting clause or another use of the fact)' % (io['answers'], case['expect_answers'])
     if 'expect_count' in case and len(io['answers']) != case['expect_count']:
         return '%d answers, expected %d' % (len(io['answers']), case['expect_count'])
     for n, rows in case['expect_db'].items():
@@ -630,6 +655,18 @@ def builtin_corpus():
     ]:
         L.append({'kind': 'prog', 'template': 'corpus', 'nvars': 2, 'source': src, 'query': q, 'read': [['p', 1]],
                   'expect_count': 1, 'expect_db': {'p': exp}, 'bound_inside': True})
+    # one use after the other; findall holds the answers of the first
+    fa_ = f('f', a); fb_ = f('f', b); fv = f('f', v(0))
+    for src, q, ans in [
+        ('t(L,Y) :- assertz(p(f(_))), findall(X, p(X), L), p(Y), Y = f(a).\n', ['t', 2], [terms.mklist([fv]), fa_]),
+        ('t(L1,L2) :- assertz(p(f(_))), findall(X, p(X), L1), findall(X, p(X), L2), L1 = [f(a)], L2 = [f(b)].\n', ['t', 2],
+         [terms.mklist([fa_]), terms.mklist([fb_])]),
+        ('u(Y) :- p(Y), Y = f(b).\nt(L,M) :- assertz(p(f(_))), findall(X, p(X), L), findall(Y, u(Y), M).\n', ['t', 2],
+         [terms.mklist([fv]), terms.mklist([fb_])]),
+    ]:
+        L.append({'kind': 'prog', 'template': 'corpus-seq', 'nvars': 2, 'source': src, 'query': q, 'read': [['p', 1]],
+                  'expect_answers': [[terms.term_obs(t) for t in ans]], 'expect_db': {'p': [[terms.term_obs(fv)]]},
+                  'nonground_twice': True})
     return L
 
 def impl(case):
